@@ -114,6 +114,13 @@ Section Rayleigh.
     intros Hu Hv Hn. destruct (quad_spectral n) as [Hq Hp]. rewrite Hq. rewrite Hn, Hu, Hv in Hp. rewrite Hu, Hv.
     replace (vdot ROps n w * vdot ROps n w) with 1 by lra. ring.
   Qed.
+  (* ... and is an eigenvector for it: n = (n.w) w *)
+  Lemma eigen_attained n : vdot ROps n u = 0 -> vdot ROps n v = 0 -> m3apply ROps c n = vscale ROps lw n.
+  Proof.
+    intros Hu Hv. pose proof (orthonormal_complete u v w n Huu Hvv Hww Huv Huw Hvw) as Hn.
+    rewrite Hu, Hv in Hn. rewrite Hn at 1. rewrite m3apply_comb, Eu, Ev, Ew. rewrite Hn at 2.
+    destruct u, v, w. vunf. apply V3_ext; ring.
+  Qed.
 End Rayleigh.
 
 Lemma rayleigh_cross c (u v w : vec3 R) (lu lv lw : R) :
@@ -416,11 +423,37 @@ Proof.
   { unfold quad. rewrite He, vdot_scale_r. unfold vnorm2 in Hn. rewrite Hn. ring. }
   rewrite Hq. specialize (Hmin m). unfold vnorm2 in Hm. rewrite Hm in Hmin. lra.
 Qed.
-(* under the eigen-solver contract the fitted normal is such an eigenvector (so the hypothesis above is met) *)
-Lemma contract_gives_min_eigenvector c e : eig_contract c e ->
-  exists lam, (forall m, lam * vdot ROps m m <= quad c m) /\ quad c (fit_normal ROps e) = lam.
+(* under the eigen-solver contract the fitted normal is such an eigenvector: unit, cov n = lam n, lam minimal - exactly
+   the hypotheses of min_eigenvector_is_least_squares *)
+Lemma fit_normal_eigen c e : eig_contract c e ->
+  exists lam, m3apply ROps c (fit_normal ROps e) = vscale ROps lam (fit_normal ROps e).
 Proof.
-  intros Hc. destruct (fit_normal_optimal c e Hc) as [Hn Hopt]. exists (quad c (fit_normal ROps e)). split; [|reflexivity].
+  destruct e as [l0 l1 l2 u0 u1 u2]. unfold eig_contract. cbn [ev0 ev1 ev2 eu0 eu1 eu2].
+  intros (E0 & E1 & E2 & H00 & H11 & H22 & H01 & H02 & H12).
+  assert (H10 : vdot ROps u1 u0 = 0) by (rewrite vdot_comm; exact H01).
+  assert (H20 : vdot ROps u2 u0 = 0) by (rewrite vdot_comm; exact H02).
+  assert (H21 : vdot ROps u2 u1 = 0) by (rewrite vdot_comm; exact H12).
+  assert (X : forall a b, vdot ROps (vcross ROps a b) a = 0 /\ vdot ROps (vcross ROps a b) b = 0).
+  { intros a b. split; rewrite vdot_comm; [apply vcross_orth_l|apply vcross_orth_r]. }
+  unfold fit_normal, argsort3. cbn [ev0 ev1 ev2]. rops.
+  destruct (Rltb l1 l0); [destruct (Rltb l2 l1); [|destruct (Rltb l2 l0)]|destruct (Rltb l2 l0); [|destruct (Rltb l2 l1)]];
+    cbn [eig_col eu0 eu1 eu2].
+  - exists l2. apply (eigen_attained c u0 u1 u2 l0 l1 l2); try assumption; apply X.
+  - exists l1. apply (eigen_attained c u0 u2 u1 l0 l2 l1); try assumption; apply X.
+  - exists l1. apply (eigen_attained c u2 u0 u1 l2 l0 l1); try assumption; apply X.
+  - exists l2. apply (eigen_attained c u1 u0 u2 l1 l0 l2); try assumption; apply X.
+  - exists l0. apply (eigen_attained c u1 u2 u0 l1 l2 l0); try assumption; apply X.
+  - exists l0. apply (eigen_attained c u2 u1 u0 l2 l1 l0); try assumption; apply X.
+Qed.
+
+Lemma contract_gives_min_eigenvector c e : eig_contract c e ->
+  exists lam, (forall m, lam * vdot ROps m m <= quad c m) /\
+    vnorm2 ROps (fit_normal ROps e) = 1 /\ m3apply ROps c (fit_normal ROps e) = vscale ROps lam (fit_normal ROps e).
+Proof.
+  intros Hc. destruct (fit_normal_optimal c e Hc) as [Hn Hopt]. destruct (fit_normal_eigen c e Hc) as [lam He].
+  assert (Hq : quad c (fit_normal ROps e) = lam).
+  { unfold quad. rewrite He, vdot_scale_r, Hn. ring. }
+  exists lam. split; [|split; [exact Hn|exact He]]. rewrite <- Hq.
   intros m. destruct (Req_dec (vdot ROps m m) 0) as [Hz|Hnz].
   - assert (m = V3 0 0 0) by (apply vnorm2_zero; exact Hz). subst m. unfold quad. dm3 c. munf. lra.
   - assert (Hp : 0 < vdot ROps m m).
